@@ -286,17 +286,18 @@ impl Request {
         let mut query_string = "".to_string();
 
         for (key, value) in sorted_query {
+            // Same separator rule as for the query of a request: an empty param (`?=&a=1`) leaves nothing behind
+            if !query_string.is_empty() {
+                query_string.push('&');
+            }
+
             query_string.push_str(&utf8_percent_encode(key, QUERY_ENCODE_SET).to_string());
 
             if !value.is_empty() {
                 query_string.push('=');
                 query_string.push_str(&utf8_percent_encode(value, QUERY_ENCODE_SET).to_string());
             }
-
-            query_string.push('&');
         }
-
-        query_string.pop();
 
         if query_string.is_empty() {
             return None;
